@@ -17,8 +17,13 @@ MUTANTS = [
     {'name': 'gumbel-shortcut-returns-product', 'rule': 'D4.values', 'file': 'bivariate/gumbel.py', 'old': "        if self.theta == 1:\n            return y\n", 'new': "        if self.theta == 1:\n            return y * V\n"},
     {'name': 'clayton-inverse-wrong-inner-exponent', 'rule': 'D4.values', 'file': 'bivariate/clayton.py', 'old': "            a = np.power(y, self.theta / (-1 - self.theta))", 'new': "            a = np.power(y, self.theta / (1 + self.theta))"},
     {'name': 'clayton-inverse-b-uses-y', 'rule': 'D4.values', 'file': 'bivariate/clayton.py', 'old': "            b = np.power(V, self.theta)\n", 'new': "            b = np.power(y, self.theta)\n"},
+    {'name': 'bracket-upper-half-only', 'rule': 'D2.root', 'file': 'bivariate/base.py', 'old': "brentq(f, EPSILON, 1.0)", 'new': "brentq(f, 0.5, 1.0)"},
+    {'name': 'bracket-stops-short-of-one', 'rule': 'D2.root', 'file': 'bivariate/base.py', 'old': "brentq(f, EPSILON, 1.0)", 'new': "brentq(f, EPSILON, 0.9)"},
+    {'name': 'scalar-wrapper-transposes', 'rule': 'D2.stack', 'file': 'bivariate/base.py', 'old': "        X = np.column_stack((U, V))\n        return self.partial_derivative(X)", 'new': "        X = np.column_stack((V, U))\n        return self.partial_derivative(X)"},
 ]
 REWRITES = [
+    {'name': 'bracket-one-minus-eps', 'file': 'bivariate/base.py', 'old': "brentq(f, EPSILON, 1.0)", 'new': "brentq(f, EPSILON, 1.0 - EPSILON)"},
+    {'name': 'scalar-wrapper-inline', 'file': 'bivariate/base.py', 'old': "        X = np.column_stack((U, V))\n        return self.partial_derivative(X)", 'new': "        return self.partial_derivative(np.column_stack((U, V)))"},
     {'name': 'item-instead-of-ravel', 'file': B, 'old': "return np.ravel(self.partial_derivative_scalar(u, _v))[0] - _y", 'new': "return self.partial_derivative_scalar(u, _v).item() - _y"},
     {'name': 'upper-bracket-one-minus-eps', 'file': B, 'old': "minimum = brentq(f, EPSILON, 1.0)", 'new': "minimum = brentq(f, EPSILON, 1 - EPSILON)"},
     {'name': 'rename-loop-vars', 'file': B, 'edits': [
